@@ -324,6 +324,9 @@ def write_evidence(cid, mod, tier, base_seed, agg, extra_assumptions=()):
           "assumptions": list(getattr(mod, "ASSUMPTIONS", [])) + list(extra_assumptions),
           "wall_s": round(agg["wall"], 2),
           "violations": sum(1 for s in agg["viol"] if not agg["viol"][s].get("known"))}
+    if os.path.realpath(os.environ.get("VERIF_REPO", "/repo")) != "/repo":
+        # a scratch tree (a seeded change, a reverted repair): what is committed as evidence comes from /repo itself
+        return ev
     os.makedirs(os.path.join(VERIF, "evidence"), exist_ok=True)
     with open(os.path.join(VERIF, "evidence", "%s.json" % cid), "w") as f:
         json.dump(ev, f, indent=1, default=str)
